@@ -325,7 +325,7 @@ def accept (env : Env) (net : Net) (pid : Nat) : Res :=
 
 /-- `Net::send_connless` (`ConnlessBuilder::send`) -/
 def sendConnless (net : Net) (addr : Nat) (data : Bytes) : Res :=
-  if data.length > maxPayload then .ok (net, .send .tooLongData, {})
+  if data.length > Tw.Gen.Conn.P6.connlessMax then .ok (net, .send .tooLongData, {})
   else
     match emit [.connless data] with
     | .error e => .error e
